@@ -160,6 +160,25 @@ def run(ctx):
                 ctx.hist("traversal", trav or "default")
                 check_case(ctx, snap, scratch, roots, mind, maxd, trav, t)
             common.rm_tree(snap.root)
+        # a very deep tree: the clauses hold at every level, however deep (no level is special)
+        for t in range(1 if quick else 4):
+            r = ctx.rng.fork()
+            depth = r.choice([204, 230, 265])
+            ents, cur = [], ""
+            for lv in range(depth):
+                cur = (cur + "/" if cur else "") + r.choice(["d", "e", "n%d" % (lv % 7)])
+                ents.append({"path": cur, "kind": "d", "mode": 0o755, "mtime": 1700000000})
+                if lv % 9 == 0 or lv > depth - 12:
+                    ents.append({"path": cur + "/f%d.txt" % lv, "kind": "f", "size": 1, "mode": 0o644, "mtime": 1700000000})
+                if lv % 50 == 49 or lv > depth - 8:
+                    ents.append({"path": cur + "/side", "kind": "d", "mode": 0o755, "mtime": 1700000000})
+                    ents.append({"path": cur + "/side/g.txt", "kind": "f", "size": 2, "mode": 0o644, "mtime": 1700000000})
+            snap = corr.Snap(scratch, ents, subdir="deep%d" % t, content_facts=False)
+            for trav in ("dfs", "bfs", ""):
+                for mind, maxd in ((None, None), (depth - 6, None), (None, depth - 3), (198, 203)):
+                    ctx.count("deep_chain_queries")
+                    check_case(ctx, snap, scratch, ["."], mind, maxd, trav, "deep%d" % t)
+            common.rm_tree(snap.root)
         if not quick:
             shapes = []
             for n in range(1, 6):
